@@ -408,9 +408,6 @@ impl Delivered {
     fn delivered(&self) -> &[Entry] {
         &self.all[..self.keep_full]
     }
-    fn broken(&self) -> bool {
-        self.mid.is_some() || self.truncate_compressed || self.missing
-    }
 }
 
 fn apply_arch(arch: &Arch, cfg: &Config, alts: &[Alt]) -> Delivered {
@@ -804,6 +801,11 @@ fn write_file(p: &Path, c: &[u8]) {
     std::fs::write(p, c).expect("write");
 }
 
+static T_SETUP: AtomicUsize = AtomicUsize::new(0);
+static T_SNAP: AtomicUsize = AtomicUsize::new(0);
+static T_RUN: AtomicUsize = AtomicUsize::new(0);
+static T_CLEAN: AtomicUsize = AtomicUsize::new(0);
+
 struct Observed {
     result: Result<(), String>,
     before: Snap,
@@ -814,6 +816,7 @@ struct Observed {
 
 fn execute(w: &Worker, case: &Case) -> Observed {
     let cfg = &case.config;
+    let t0 = std::time::Instant::now();
     let root = w.base.join("case");
     let _ = std::fs::remove_dir_all(&root);
     let target = root.join("target");
@@ -902,7 +905,9 @@ fn execute(w: &Worker, case: &Case) -> Observed {
         include_ancillary: cfg.ancillary,
         max_parallel_downloads: cfg.parallel,
     };
+    let t1 = std::time::Instant::now();
     let before = snap(&root);
+    let t2 = std::time::Instant::now();
     let range = cfg.range.to_client();
     let result = catch(|| {
         // a runtime per case: dropping it waits for every blocking unpack task, so nothing
@@ -916,8 +921,15 @@ fn execute(w: &Worker, case: &Case) -> Observed {
         Ok(r) => r,
         Err(p) => Err(format!("PANIC: {p} at {}", mc_core::last_panic_location())),
     };
+    let t3 = std::time::Instant::now();
     let after = snap(&root);
+    let t4 = std::time::Instant::now();
     let _ = std::fs::remove_dir_all(&root);
+    let t5 = std::time::Instant::now();
+    T_SETUP.fetch_add((t1 - t0).as_micros() as usize, Ordering::Relaxed);
+    T_SNAP.fetch_add(((t2 - t1) + (t4 - t3)).as_micros() as usize, Ordering::Relaxed);
+    T_RUN.fetch_add((t3 - t2).as_micros() as usize, Ordering::Relaxed);
+    T_CLEAN.fetch_add((t5 - t4).as_micros() as usize, Ordering::Relaxed);
     Observed { result, before, after, anc: if cfg.ancillary { Some(anc) } else { None }, imm }
 }
 
@@ -1090,7 +1102,7 @@ fn judge(case: &Case, obs: &Observed) -> Judgement {
             let anc_bytes = matches!(obs.after.get(k), Some(Node::File(c)) if c.starts_with(b"ANC|"));
             let marker = matches!(obs.after.get(k), Some(Node::File(c)) if c.is_empty() || c == NETWORK_MAGIC.as_bytes())
                 && matches!(obs.before.get(k), Some(Node::File(c)) if c.starts_with(b"VICTIM|"));
-            let key = if anc_bytes {
+            let key = if anc_bytes || (k.starts_with("outside/ledger-out/") && obs.after.get(k) != Some(&Node::Dir)) {
                 "C19/ancillary-files-moved-outside-target-through-unpacked-symlink"
             } else if marker {
                 "C19/bootstrap-marker-written-outside-target-through-unpacked-symlink"
@@ -1201,10 +1213,22 @@ fn judge(case: &Case, obs: &Observed) -> Judgement {
         } else if org == "ANC" {
             "C19/unvouched-ancillary-entry-kept"
         } else if org == "IMM" {
-            if trio_number(rel).is_some() {
-                "C19/immutable-number-outside-range-survives"
-            } else if rel.starts_with("immutable/") {
-                "C19/entry-nested-under-expected-immutable-name-survives"
+            if let Some(n) = trio_number(rel) {
+                // inside what the clean-up of today tolerates (0..=beacon, +1 with ancillary) or beyond it
+                if n <= BEACON + if cfg.ancillary { 1 } else { 0 } {
+                    "C19/immutable-number-outside-range-survives"
+                } else {
+                    "C19/immutable-number-beyond-beacon-survives"
+                }
+            } else if let Some(inner) = rel.strip_prefix("immutable/") {
+                let top = inner.split('/').next().unwrap_or("");
+                let under_expected_name = inner.contains('/')
+                    && trio_number(&format!("immutable/{top}")).is_some_and(|n| requested.contains(&n) || (cfg.ancillary && n == BEACON + 1));
+                if under_expected_name {
+                    "C19/entry-nested-under-expected-immutable-name-survives"
+                } else {
+                    "C19/unexpected-entry-in-immutable-dir-survives"
+                }
             } else {
                 "C19/immutable-archive-entry-outside-immutable-dir-survives"
             }
@@ -1340,7 +1364,50 @@ fn side_cases(thorough: bool) -> Vec<Case> {
     v
 }
 
-fn singles(cfg: &Config, wide: bool) -> Vec<Alt> {
+#[derive(Clone, Copy, PartialEq)]
+enum Width {
+    /// first and last archive of the range, entries added first / last
+    Quick,
+    /// every archive of the range, entries added at every position
+    Wide,
+    /// representative subset of the added entries (one per path class), used for pairs
+    Core,
+}
+
+const CORE_IMM: [&str; 16] = [
+    "file:ledger/999",
+    "file:volatile/blocks-0.dat",
+    "file:stray-root.txt",
+    "file:clean",
+    "file:immutable/stray.txt",
+    "file:immutable/{own}.chunk/evil",
+    "file:immutable/00000.chunk",
+    "file:immutable/00004.chunk",
+    "file:immutable/00005.chunk",
+    "file:../escape-dotdot.txt",
+    "file:@OUT@/escape-abs.txt",
+    "dir:volatile",
+    "symlink:ledger->@OUT@/ledger-out",
+    "symlink:clean->@OUT@/victim-clean",
+    "symlink:immutable/dirlink->@OUT@/vdir",
+    "hardlink:ledger/hardlink->immutable/{own}.chunk",
+];
+
+const CORE_ANC: [&str; 10] = [
+    "file:ledger/evil-unlisted",
+    "file:volatile/blocks-0.dat",
+    "file:stray-root.txt",
+    "file:clean",
+    "file:immutable/00001.chunk",
+    "file:../ledger/escape-into-target",
+    "file:up/evil.txt",
+    "symlink:up->..",
+    "symlink:volatile->@OUT@/vol-out",
+    "hardlink:ledger/hard-unlisted->immutable/00004.chunk",
+];
+
+fn singles(cfg: &Config, width: Width) -> Vec<Alt> {
+    let wide = width == Width::Wide;
     let mut v = vec![];
     let nums: Vec<u64> = cfg.range.numbers().into_iter().collect();
     let archives: Vec<u64> = if wide {
@@ -1354,6 +1421,9 @@ fn singles(cfg: &Config, wide: bool) -> Vec<Alt> {
         let arch = Arch::Imm(*n);
         let positions: Vec<Pos> = if wide { vec![Pos::First, Pos::Before(1), Pos::Before(2), Pos::Last] } else { vec![Pos::First, Pos::Last] };
         for x in imm_extras(*n) {
+            if width == Width::Core && !CORE_IMM.iter().any(|c| c.replace("{own}", &format!("{n:05}")) == x.name) {
+                continue;
+            }
             for pos in &positions {
                 v.push(Alt::Add { arch: arch.clone(), pos: pos.clone(), extra: x.name.clone() });
             }
@@ -1373,10 +1443,15 @@ fn singles(cfg: &Config, wide: bool) -> Vec<Alt> {
         let nl = listed.len();
         let positions: Vec<Pos> = if wide {
             vec![Pos::First, Pos::Before(3), Pos::Before(nl), Pos::Last]
+        } else if width == Width::Core {
+            vec![Pos::First, Pos::Last]
         } else {
             vec![Pos::First, Pos::Before(nl), Pos::Last]
         };
         for x in anc_extras() {
+            if width == Width::Core && !CORE_ANC.contains(&x.name.as_str()) {
+                continue;
+            }
             for pos in &positions {
                 v.push(Alt::Add { arch: arch.clone(), pos: pos.clone(), extra: x.name.clone() });
             }
@@ -1385,7 +1460,9 @@ fn singles(cfg: &Config, wide: bool) -> Vec<Alt> {
             v.push(Alt::Remove { arch: arch.clone(), idx });
             v.push(Alt::Tamper { arch: arch.clone(), idx });
             v.push(Alt::AsSymlink { idx, abs: false });
-            v.push(Alt::AsSymlink { idx, abs: true });
+            if width != Width::Core {
+                v.push(Alt::AsSymlink { idx, abs: true });
+            }
             v.push(Alt::Man(ManAlt::HashChanged(idx)));
             v.push(Alt::Man(ManAlt::EntryRemoved(idx)));
             if idx + 1 < nl {
@@ -1452,18 +1529,52 @@ fn pair_configs() -> Vec<Config> {
     ]
 }
 
+/// a few two-step cases that the quick tier runs too: a hostile entry followed by a failure of the
+/// same download (the clean-up must also run when the download fails)
+fn combos(cfg: &Config) -> Vec<Case> {
+    let nums: Vec<u64> = cfg.range.numbers().into_iter().collect();
+    let (first, last) = (nums[0], *nums.last().unwrap());
+    let mut v = vec![];
+    let mut faults = vec![
+        Alt::CutBoundary { arch: Arch::Imm(last), keep: 0 },
+        Alt::CutMid { arch: Arch::Imm(last), entry: 0 },
+        Alt::CutMid { arch: Arch::Imm(last), entry: 2 },
+        Alt::CutCompressed { arch: Arch::Imm(last) },
+        Alt::Missing { arch: Arch::Imm(last) },
+    ];
+    if cfg.ancillary {
+        faults.push(Alt::Missing { arch: Arch::Anc });
+        faults.push(Alt::CutMid { arch: Arch::Anc, entry: 1 });
+        faults.push(Alt::Man(ManAlt::SigRemoved));
+        faults.push(Alt::Man(ManAlt::SigOtherKey));
+        faults.push(Alt::Tamper { arch: Arch::Anc, idx: 4 });
+    }
+    for extra in ["file:immutable/stray.txt", "file:immutable/sub/nested.txt", "file:immutable/00005.chunk", "symlink:immutable/dirlink->@OUT@/vdir"] {
+        for f in &faults {
+            let add = Alt::Add { arch: Arch::Imm(first), pos: Pos::First, extra: extra.into() };
+            if compatible(&add, f) {
+                v.push(Case { config: cfg.clone(), alts: vec![add, f.clone()] });
+            }
+        }
+    }
+    v
+}
+
 fn all_cases(thorough: bool) -> Vec<Case> {
     let mut v = vec![];
     for c in configs(thorough) {
         v.push(Case { config: c.clone(), alts: vec![] });
-        for a in singles(&c, thorough) {
+        for a in singles(&c, if thorough { Width::Wide } else { Width::Quick }) {
             v.push(Case { config: c.clone(), alts: vec![a] });
         }
     }
     v.extend(side_cases(thorough));
+    for c in configs(false).iter().take(4) {
+        v.extend(combos(c));
+    }
     if thorough {
         for c in pair_configs() {
-            let s = singles(&c, false);
+            let s = singles(&c, Width::Core);
             for i in 0..s.len() {
                 for k in i + 1..s.len() {
                     if compatible(&s[i], &s[k]) {
@@ -1473,6 +1584,9 @@ fn all_cases(thorough: bool) -> Vec<Case> {
             }
         }
     }
+    // a case is listed once
+    let mut seen = BTreeSet::new();
+    v.retain(|c| seen.insert(serde_json::to_string(c).unwrap()));
     v
 }
 
@@ -1586,6 +1700,15 @@ pub fn run(ctx: &Ctx) -> ! {
     let parts = par_map(&cases, ctx.threads(), |_, c| run_case(c, false));
     for p in parts {
         rep.merge(p);
+    }
+    if std::env::var("C19_PROFILE").is_ok() {
+        eprintln!(
+            "profile (cpu-seconds over all workers): setup {:.1} snapshots {:.1} download_unpack {:.1} cleanup {:.1}",
+            T_SETUP.load(Ordering::Relaxed) as f64 / 1e6,
+            T_SNAP.load(Ordering::Relaxed) as f64 / 1e6,
+            T_RUN.load(Ordering::Relaxed) as f64 / 1e6,
+            T_CLEAN.load(Ordering::Relaxed) as f64 / 1e6
+        );
     }
     rep.assume("max_parallel_downloads = 1 in altered cases (archives are fetched one after the other, immutables ascending, then ancillary), so that the outcome of a failing download is deterministic; the honest download is also run with the default 20");
     rep.assume("with the ancillary option the trio BEACON+1 is accepted by name inside immutable/ whatever archive delivered it (the clean-up's own allowance); the bytes of immutable files are C10's business");
